@@ -123,12 +123,12 @@ def decode_graph(n, code, descending=False):
 
 
 def _graph_shard(arg):
-    n, lo, hi = arg
+    n, lo, hi, step = arg
     tree.activate_view()
     part = harness.Part()
     orders = list(itertools.permutations(range(n)))
     found = {}
-    for code in range(lo, hi):
+    for code in range(lo, hi, step):
         for desc in (False,):      # descending successor order = ascending order on the node-reversed graph (also enumerated)
             succ = decode_graph(n, code, desc)
             cyc, shared = graph_features(succ)
@@ -235,12 +235,11 @@ def reduce_graph(case):
 
 
 def run_graph_part(ctx):
-    shards = []
-    for n in (1, 2, 3):
-        shards.append((n, 0, 2 ** (n * n)))
-    step = 2 ** 16 // 64
-    for lo in range(0, 2 ** 16, step):
-        shards.append((4, lo, lo + step))
+    # few, evenly loaded shards (every pmap item is a freshly forked worker): n <= 3 in one item each, n = 4 dealt
+    # round-robin (graph code mod 16) because dense graphs cost more than sparse ones
+    shards = [(n, 0, 2 ** (n * n), 1) for n in (1, 2, 3)]
+    for k in range(16):
+        shards.append((4, k, 2 ** 16, 16))
     ctx.pmap(_graph_shard, shards)
     ctx.exhaustive = True
     ctx.extra["exhaustive_space"] = ("every digraph on 1..4 nodes (2**(n*n) adjacency matrices, self-loops and cycles "
